@@ -171,7 +171,8 @@ InjKinds == {"saved-not-restored", "sp-not-restored", "ra-not-restored", "temp-a
              "never-assigned-in-function", "never-assigned-in-main", "never-assigned-after-ecall",
              "unused-assignment", "write-to-zero", "stack-at-entry-sp", "stack-above-entry-sp", "in-data-segment",
              "unknown-ecall", "unreachable-after-ret", "unreachable-after-jump", "jump-into-function",
-             "fall-through-into-function", "function-first-in-program"}
+             "fall-through-into-function", "function-first-in-program",
+             "saved-from-another-saved", "in-data-segment-after-include"}
 
 \* Inject(p, kind, fn) = [ok, prog, exp] ; fn is the function the injection goes into ("F1" / "F2")
 Inject(p, kind, fn, var) ==
@@ -181,6 +182,10 @@ Inject(p, kind, fn, var) ==
   IN
   CASE kind = "saved-not-restored" ->
         IF Has(p, t("restore-s0")) THEN yes(Del(p, Idx(p, t("restore-s0"))), E({"overwrite-callee-saved-register"}, t("def-s0"), 8)) ELSE no
+    \* the saved register gets the entry value of another saved register back instead of its own
+    [] kind = "saved-from-another-saved" ->
+        IF Has(p, t("restore-s0")) /\ ~Has(p, t("def-s1"))
+          THEN yes(Repl(p, Idx(p, t("restore-s0")), I("mv s0, s1", "inj")), E({"overwrite-callee-saved-register"}, "inj", 8)) ELSE no
     [] kind = "sp-not-restored" ->
         IF Has(p, t("free")) THEN yes(Del(p, Idx(p, t("free"))), E({"overwrite-callee-saved-register", "invalid-stack-position", "invalid-stack-pointer"},
                                                             IF Has(p, t("alloc")) THEN t("alloc") ELSE t("first"), 2)) ELSE no
@@ -224,6 +229,9 @@ Inject(p, kind, fn, var) ==
     [] kind = "stack-above-entry-sp" ->
         IF Has(p, t("save-ra")) THEN yes(InsAfter(p, Idx(p, t("save-ra")), << I(CASE var = 1 -> "sw a0, 64(sp)" [] var = 2 -> "sh zero, 66(sp)" [] OTHER -> "sb a0, 65(sp)", "inj") >>),
                                               E({"invalid-stack-offset-usage"}, "inj", -1)) ELSE no
+    \* the data section pulls its values in from another file: the instruction behind the directive is still in .data
+    [] kind = "in-data-segment-after-include" ->
+        IF Has(p, t("ret")) THEN yes(InsAfter(p, Idx(p, t("ret")) - 1, << L(".data", ""), L(".include \"d.s\"", ""), I("addi a0, a0, 0", "inj"), L(".text", "") >>), E({"invalid-segment"}, "inj", -1)) ELSE no
     [] kind = "in-data-segment" ->
         IF Has(p, t("ret")) THEN yes(InsAfter(p, Idx(p, t("ret")) - 1, << L(".data", ""), I("addi a0, a0, 0", "inj"), L(".text", "") >>), E({"invalid-segment"}, "inj", -1)) ELSE no
     [] kind = "unknown-ecall" ->
